@@ -283,8 +283,12 @@ def run(chk, tier):
     _SB.check(chk, db, ['_vector/', '_inplace_vector/', '_stack/'])      # SIB: cv/ref-qualified overloads of one member agree
     _SB.positive_control(chk)
     resize_rule(chk, db)
+    # SLOTS-D / SLOTS-C (shared with C03): the destroyed range is exactly the removed tail, construction happens at the first free slot
+    from ..rules import slots as _SLD
+    _SLD.check(chk, D.load("plain"), ["static_vector", "inplace_vector"], lambda r: ("trivial_storage" not in r) or ("non_trivial" in r), only=("D", "C"))
     from ..rules import iters as _ITE
     _ITE.erase_count_area(chk, db, ['_vector/', '_inplace_vector/'])      # ERASECNT: erase / erase_if return the number of erased elements
+    _ITE.rotate_insert_area(chk, db, ['_vector/', '_inplace_vector/'])      # ROTINS: append-then-rotate inserts rotate from the requested position
     from ..rules import initform as _IF
     _IF.check(chk, db, ['_vector/', '_inplace_vector/', '_stack/'])      # INITFORM: forwarded packs direct-non-list-initialise
     cap_rule(chk, db)
